@@ -468,3 +468,122 @@ def swallow_unimplemented(transport, sink):
             return ptype, m
 
     transport.packetizer.read_message = read_message
+
+
+# ----------------------------------------------------------------------------- channel.py: who sends under Channel.lock
+def _is_self_lock(node):
+    return (isinstance(node, ast.Attribute) and node.attr == "lock" and isinstance(node.value, ast.Name)
+            and node.value.id == "self")
+
+
+def _lock_call(stmt, what):
+    """`self.lock.acquire()` / `self.lock.release()` as an expression statement"""
+    return (isinstance(stmt, ast.Expr) and isinstance(stmt.value, ast.Call)
+            and isinstance(stmt.value.func, ast.Attribute) and stmt.value.func.attr == what
+            and _is_self_lock(stmt.value.func.value))
+
+
+def channel_lock_table():
+    """From the AST of paramiko/channel.py: every call site of `_send_user_message` with (function, line, lexically
+    inside a `with self.lock:` body or an acquire()…try…finally release() region), and for every method whether it
+    takes Channel.lock itself or through a `self.method()` it calls.  Returns (sites, takes_lock: {name: bool})."""
+    import paramiko.channel as C
+
+    tree = ast.parse(open(C.__file__.replace(".pyc", ".py"), encoding="utf-8").read())
+    cls = next(n for n in tree.body if isinstance(n, ast.ClassDef) and n.name == "Channel")
+    sites, direct_lock, calls = [], {}, {}
+
+    def walk(stmts, locked, fn):
+        pending = False      # an acquire() seen in this statement list: the next try body is the locked region
+        for st in stmts:
+            if _lock_call(st, "acquire"):
+                pending = True
+                direct_lock[fn] = True
+                continue
+            here = locked
+            if isinstance(st, ast.With) and any(_is_self_lock(i.context_expr) for i in st.items):
+                direct_lock[fn] = True
+                visit_exprs(st, True, fn, skip_body=True)
+                walk(st.body, True, fn)
+                continue
+            if isinstance(st, ast.Try):
+                releases = any(_lock_call(f, "release") for f in st.finalbody)
+                inner = locked or (pending and releases)
+                walk(st.body, inner, fn)
+                for h in st.handlers:
+                    walk(h.body, inner, fn)
+                walk(st.orelse, inner, fn)
+                walk(st.finalbody, locked, fn)
+                if releases:
+                    pending = False
+                continue
+            if _lock_call(st, "release"):
+                pending = False
+                locked = False if not isinstance(st, ast.With) else locked
+                continue
+            here = locked or pending
+            visit_exprs(st, here, fn)
+            for field in ("body", "orelse"):
+                sub = getattr(st, field, None)
+                if isinstance(sub, list) and sub and isinstance(sub[0], ast.stmt):
+                    walk(sub, here, fn)
+
+    def visit_exprs(st, locked, fn, skip_body=False):
+        # expressions of this statement itself (not of nested statement lists)
+        nodes = []
+        for name, val in ast.iter_fields(st):
+            if name in ("body", "orelse", "finalbody", "handlers"):
+                continue
+            vals = val if isinstance(val, list) else [val]
+            for v in vals:
+                if isinstance(v, ast.AST):
+                    nodes += list(ast.walk(v))
+        for n in nodes:
+            if isinstance(n, ast.Call) and isinstance(n.func, ast.Attribute):
+                if n.func.attr == "_send_user_message":
+                    sites.append({"func": fn, "line": n.lineno, "under_lock": bool(locked)})
+                if isinstance(n.func.value, ast.Name) and n.func.value.id == "self":
+                    calls.setdefault(fn, set()).add(n.func.attr)
+
+    for f in cls.body:
+        if isinstance(f, (ast.FunctionDef, ast.AsyncFunctionDef)):
+            direct_lock.setdefault(f.name, False)
+            calls.setdefault(f.name, set())
+            walk(f.body, False, f.name)
+    takes = dict(direct_lock)
+    changed = True
+    while changed:
+        changed = False
+        for fn, cs in calls.items():
+            if not takes.get(fn) and any(takes.get(c) for c in cs):
+                takes[fn] = True
+                changed = True
+    return sites, takes
+
+
+def lean_channel_table(sites, takes, handlers):
+    rows = ",\n".join('    ⟨"%s", %d, %s, %s⟩' % (s["func"], s["line"], "true" if s["under_lock"] else "false",
+                                                  "true" if s["func"] in handlers else "false") for s in sites)
+    hrows = ", ".join('("%s", %s)' % (h, "true" if takes.get(h) else "false") for h in sorted(handlers))
+    return (
+        "/- GENERATED from the AST of paramiko/channel.py of the tree under test by pv/lib_runloop.py on every run of C11\n"
+        "   -- do not edit.  Every call site of `_send_user_message` in class Channel: function, line, whether it is\n"
+        "   lexically inside a `with self.lock` / acquire…release region, whether the function is a transport-thread\n"
+        "   handler (member of Transport._channel_handler_table).  And per handler: does it take Channel.lock. -/\n"
+        "namespace PV.Generated.C11\n\n"
+        "structure Site where\n  func : String\n  line : Nat\n  underLock : Bool\n  onTransportThread : Bool\n"
+        "  deriving Repr, DecidableEq\n\n"
+        "def sites : List Site := [\n%s ]\n\n"
+        "/-- transport-thread channel handlers and whether they (or a method they call) take Channel.lock -/\n"
+        "def handlers : List (String × Bool) := [%s]\n\n"
+        "end PV.Generated.C11\n" % (rows, hrows)
+    )
+
+
+def write_generated_c11(ctx):
+    from paramiko.transport import Transport
+
+    sites, takes = channel_lock_table()
+    handlers = {f.__name__ for f in Transport._channel_handler_table.values()}
+    ctx.write_generated("C11", lean_channel_table(sites, takes, handlers))
+    return sites, takes, handlers
